@@ -236,6 +236,13 @@ def install(I):
         arr = I.read(st, b.cell, ())
         return I.ret(st, Agg('Vec', arr.fields))
 
+    @M(r'^<\[.*\]>::to_vec$|(^|::)slice::<impl \[.*\]>::to_vec$', 'slice::to_vec (element-wise copy)')
+    def m_to_vec(I, st, f, args, fr):
+        arr = deref_val(I, st, args[0])
+        if not isinstance(arr, Agg):
+            raise Unmodelled('to_vec of %r' % (arr,))
+        return I.ret(st, Agg('Vec', [clone_val(I, st, x) for x in arr.fields]))
+
     @M(r'^<\[.*\]>::into_vec|^slice::<impl \[.*\]>::into_vec', 'slice::into_vec')
     def m_into_vec(I, st, f, args, fr):
         b = args[0]
